@@ -386,7 +386,7 @@ def run(ctx):
                         qconst = probe_const(q)
                         err = abs((res[1][1] - qconst) - fval) / max(1.0, abs(fval))
                         ctx.maxobs("roundtrip.value", err)
-                        c.require(err <= 2e-5, "roundtrip:optimal-value-of-linear-part",
+                        c.require(err <= 2e-3, "roundtrip:optimal-value-of-linear-part",
                                   "after: %r (constant %r), HiGHS on the file's LP %r" % (res[1][1], qconst, fval))
                 else:
                     ctx.count("solve.not-judged." + "/".join(r[0].split(":")[0] for r in res))
